@@ -100,6 +100,29 @@ theorem fshift_lastShift (ns m : List Nat) (hpos : ∀ n ∈ ns, 0 < n) (h : inR
     exact shift1_inv _ _ (by omega)
   · rw [if_neg hlast, if_neg hlast]
 
+/-- index of the zero-frequency cell of the real transform: `⌊n/2⌋` on the shifted axes, 0 on
+the last -/
+def zeroIdxR (ns : List Nat) : List Nat :=
+  tab ns.length fun b => if b + 1 = ns.length then 0 else ns.getD b 0 / 2
+
+theorem fshiftR_zeroIdxR (ns : List Nat) (hpos : ∀ n ∈ ns, 0 < n) (b : Nat) :
+    (fshiftR ns (zeroIdxR ns)).getD b 0 = 0 := by
+  have hl : (zeroIdxR ns).length = ns.length := by simp [zeroIdxR]
+  unfold fshiftR
+  rw [hl]
+  by_cases hb : b < ns.length
+  · rw [getD_tab _ _ _ _ hb]
+    have hz : (zeroIdxR ns).getD b 0 = if b + 1 = ns.length then 0 else ns.getD b 0 / 2 := by
+      unfold zeroIdxR; rw [getD_tab _ _ _ _ hb]
+    rw [hz]
+    by_cases hlast : b + 1 = ns.length
+    · rw [if_pos hlast, if_pos hlast]
+    · rw [if_neg hlast, if_neg hlast]
+      have hn := pos_getD ns hpos b hb
+      have : ns.getD b 0 / 2 + (ns.getD b 0 - ns.getD b 0 / 2) = ns.getD b 0 := by omega
+      rw [this, Nat.mod_self]
+  · exact getD_tab_ge _ _ _ _ (by omega)
+
 /-- `rfftn` holds, cell by cell, what `fftn` holds in the cell of the same DFT frequency -/
 theorem rfftn_half_arr (ρs : List (Root R)) (nv : Nat) (a : NDA (List R)) (hpos : ∀ n ∈ a.shape, 0 < n)
     (m : List Nat) (hm : inRange (halfShape a.shape) m = true) (c : Nat) (hc : c < nv) :
